@@ -102,13 +102,21 @@ def features(F, b):
         f['step'] = steps
         # output
         outs = []
+        out_blocks = []
         for x in sorted(L['blocks']):
             for s in b.blocks[x]['stmts']:
                 if s['k'] == 'assign' and s['lhs']['p'] and s['lhs']['p'][0][0] == 'deref' and 'Frame' in (s['lhs'].get('ty') or ''):
                     d = describe_rv(b, s['rv'], depth=5, at=x)
                     if 'panned' in d:
                         outs.append(re.sub(r'resampler::Resampler::get\([^)]*\)+|frame::interpolate_frame\(.*?\)(?=, )', 'SRC', d))
+                        out_blocks.append(x)
+                    else:
+                        # anything else stored into the output frame (silence, the unscaled source ...)
+                        outs.append('other: ' + d[:80])
         f['output'] = outs
+        from ..rules import must_pass
+        entry = [y for y in b.succ(L['header']) if y in L['blocks']]
+        f['output_every_iteration'] = bool(out_blocks) and must_pass(b, entry, [L['header']], out_blocks)
     return f
 
 
@@ -161,6 +169,10 @@ def run(ctx, R, tier):
     norm = lambda s: re.sub(r'SRC|resampler::Resampler::get\(.*?\)\)|frame::interpolate_frame\(.*\)', 'SRC', s) if s else s
     R.check(bool(oa) and bool(ob) and len(oa) == 1 and len(ob) == 1 and shape(oa[0]) == shape(ob[0]), 'B.C09.sib', 'output',
             'output expressions differ: %s vs %s' % (oa, ob), detail={'shape': shape(oa[0]) if oa else None})
+    R.check(fa.get('output_every_iteration') and fb.get('output_every_iteration'), 'B.C09.sib', 'output:every-frame',
+            'an iteration of the per-frame loop can finish without storing the scaled, panned source frame (static: %s, streaming: %s): '
+            'the two kinds of sound do not produce the same frame there' % (fa.get('output_every_iteration'), fb.get('output_every_iteration')),
+            detail='every iteration stores (SRC * fade * volume).panned(panning)')
 
     frame_source(F, R)
     seek_callers(F, R)
@@ -359,9 +371,20 @@ def _sd_norm(d):
 
 
 def _sd_events(F, owner, nm):
+    """The normalised events of one builder method (with its closures and, virtually, its new private helpers): which setting
+    receives what, which values a re-assigned local takes, what the closures return.  Local names are not part of an event
+    (the twins may name their locals differently); a store is keyed by the setting it goes to, whatever path leads there."""
     import re
     out = []
     bodies = [F.body(owner + '::' + nm)] + list(F.closures_of(owner + '::' + nm))
+    def norm(b, d):
+        d = _sd_norm(d)
+        names = sorted(set(n for n in b.names.values() if n and n not in ('self',)), key=len, reverse=True)
+        for n_ in names:
+            d = re.sub(r'(?<![\w:.^])%s(?![\w(:])' % re.escape(n_), '_', d)
+        d = re.sub(r'\(\*_\)', '_', d)
+        d = re.sub(r'_\.\^\w+', '_', d)
+        return d
     for b in bodies:
         if b is None:
             continue
@@ -369,20 +392,26 @@ def _sd_events(F, owner, nm):
             if s['k'] != 'assign':
                 continue
             if s['lhs']['p']:
-                pl = pretty_place(b, s['lhs'])
-                m = re.search(r'\.((settings\.)?[a-z_]+)$', pl)
-                if m and (m.group(1).startswith('settings') or m.group(1) == 'slice'):
-                    out.append(('store', m.group(1), _sd_norm(describe_rv(b, s['rv'], depth=8, at=bb))))
+                key = None
+                for pr in reversed(s['lhs']['p']):
+                    if pr[0] == 'field' and len(pr) > 3 and str(pr[3]).endswith('SoundSettings'):
+                        key = 'settings.' + pr[2]
+                        break
+                    if pr[0] == 'field' and len(pr) > 3 and str(pr[3]).split('<')[0].endswith('SoundData') and pr[2] == 'slice':
+                        key = 'slice'
+                        break
+                if key:
+                    out.append(('store', key, norm(b, describe_rv(b, s['rv'], depth=8, at=bb))))
             elif b.local_name(s['lhs']['l']) and len(b.defs().get(s['lhs']['l'], [])) > 1:
-                out.append(('assign', b.local_name(s['lhs']['l']), _sd_norm(describe_rv(b, s['rv'], depth=8, at=bb))))
+                out.append(('assign', norm(b, describe_rv(b, s['rv'], depth=8, at=bb))))
         for bb, t in b.calls():
             d = t.get('dest')
             if d and not d['p'] and b.local_name(d['l']) and len(b.defs().get(d['l'], [])) > 1:
-                out.append(('assign', b.local_name(d['l']), _sd_norm('%s(%s)' % (callee_path(t), ', '.join(describe(b, a, depth=6, at=bb) for a in t['args'])))))
+                out.append(('assign', norm(b, '%s(%s)' % (callee_path(t), ', '.join(describe(b, a, depth=6, at=bb) for a in t['args'])))))
         if '{closure' in b.path:
             for p in explore(b):
-                if p.end == 'return':
-                    out.append(('closure-ret', _sd_norm(str(p.ret))))
+                if p.end == 'return' and str(p.ret) != '()':
+                    out.append(('closure-ret', norm(b, str(p.ret))))
     return sorted(set(out))
 
 
